@@ -2,6 +2,7 @@
 source on opaque operands (symbols of symbolic width, Python integer parameters as symbolic or small
 concrete values); the resulting core term is compared with the mathematical function the name
 denotes, for all operand values over small domains (bit-vectors exhaustively at widths 1..3/4)."""
+import ast
 import itertools
 from fractions import Fraction
 
@@ -281,6 +282,78 @@ def _slice_job(_):
     return out
 
 
+def named_methods(repo):
+    """Capitalised FNode methods (x.And(y), x.BVExtract(1, 2) ...) with their parameter kinds."""
+    ci = repo.classes["pysmt.fnode.FNode"]
+    out = []
+    for nm in ci.order:
+        f = ci.own_func(nm)
+        if f is None or not nm[0].isupper():
+            continue
+        kinds = []
+        for a in f.args.args[1:]:
+            ann = a.annotation
+            txt = (ann.value if isinstance(ann, ast.Constant) else (ann.id if isinstance(ann, ast.Name) else "")) if ann is not None else ""
+            kinds.append("int" if txt == "int" else "node")
+        out.append((nm, kinds))
+    return out
+
+
+def _named_job(job):
+    """x.NAME(args) builds the node FormulaManager.NAME(x, args) builds: both interpreted, compared by identity.
+    Operand sorts: the first family (Bool, Int, BV4, Array) the manager's constructor accepts."""
+    nm, kinds = job
+    World = __import__("sa.world", fromlist=["World"]).World
+    fams = [("BOOL",), ("INT",), ("BV", 4), ("ARRAY", ("INT",), ("INT",))]
+    for fam in fams:
+        def one(ex, fam=fam):
+            it = Interp(ex)
+            w = proc.setup_env(World().attach(it))
+            w.env.attrs["enable_infix_notation"] = True
+            elem = ("INT",) if fam[0] == "ARRAY" else fam
+            x = w.symbol("x", fam)
+            args, ints = [], [1, 2, 1]
+            for i, k in enumerate(kinds):
+                if k == "int":
+                    args.append(ints[i] if i < len(ints) else 1)
+                elif nm == "Ite" or fam[0] != "ARRAY":
+                    args.append(w.symbol("y%d" % i, ("INT",) if nm == "Ite" else fam))
+                else:
+                    args.append(w.symbol("y%d" % i, elem))
+            if nm == "Ite":
+                x = w.symbol("c", ("BOOL",))
+            try:
+                exp = w.app(nm, x, *args)
+            except AbsRaise:
+                return ("skip", None, None, None)
+            r = it.call(it.getattr(x, nm), args)
+            return ("done", w, r, exp)
+        try:
+            paths = Explorer(max_paths=20).run(one)
+        except Unsupported as e:
+            return [("method %s" % nm, "unsupported", str(e))]
+        res = []
+        skip = False
+        for p in paths:
+            if p.kind == "unsupported":
+                res.append(("method %s" % nm, "unsupported", str(p.value)))
+            elif p.kind == "raise":
+                res.append(("method %s" % nm, "raises", "%s on %s operands" % (p.value.cls_name, fam[0])))
+            else:
+                st, w, r, exp = p.value
+                if st == "skip":
+                    skip = True
+                    continue
+                if r is exp or (w.is_node(r) and w.is_node(exp) and w.node_eq(r, exp)):
+                    res.append(("method %s" % nm, "valid", "= FormulaManager.%s(self, ...) on %s operands" % (nm, fam[0])))
+                else:
+                    res.append(("method %s" % nm, "invalid", "x.%s(..) builds %s, FormulaManager.%s(x, ..) builds %s"
+                                % (nm, sc.node_str(w, r) if w.is_node(r) else r, nm, sc.node_str(w, exp))))
+        if res and not skip:
+            return res
+    return [("method %s" % nm, "unsupported", "no operand family accepted by FormulaManager.%s" % nm)]
+
+
 def run(ctx):
     if not ctx.want("R2"):
         return
@@ -288,7 +361,10 @@ def run(ctx):
     outs = parallel_map(_job, list(range(len(CASES))))
     outs.append(_sbv_job(None))
     outs.append(_slice_job(None))
-    ctx.analysed["derived_forms"] = len(CASES) + 2
+    nmeth = named_methods(get_repo())
+    outs += parallel_map(_named_job, nmeth)
+    ctx.analysed["named_methods"] = [n for n, _ in nmeth]
+    ctx.analysed["derived_forms"] = len(CASES) + 2 + len(nmeth)
     for res in outs:
         for name, kind, detail in res:
             if kind == "valid":
